@@ -297,6 +297,10 @@ func (route *baseRoute) DelDestination(index int) error {
 }
 
 func (route *ConsistentHashing) DelDestination(index int) error {
+	// without any destination the hash ring is empty and Dispatch has nowhere to send to
+	if conf := route.config.Load().(Config); len(conf.Dests()) <= 1 && index < len(conf.Dests()) {
+		return fmt.Errorf("can't remove the last destination of consistentHashing route %q", route.key)
+	}
 	return route.delDestination(index, consistentHashingConfigExtender)
 }
 
